@@ -13,6 +13,42 @@ use std::collections::BTreeMap;
 
 pub type Args = BTreeMap<String, String>;
 
+/// Watchdog state: the trace of the case being executed, the operation in progress, a progress
+/// counter.  When nothing progresses for `watchdog=<secs>` (default 20) the case is reported as
+/// deadlocked: the partial trace is printed with a final `ret=deadlock` line and the process exits 3.
+pub static PROGRESS: std::sync::atomic::AtomicU64 = std::sync::atomic::AtomicU64::new(0);
+pub static CUR_TRACE: parking_lot::Mutex<String> = parking_lot::Mutex::new(String::new());
+pub static CUR_OP: parking_lot::Mutex<String> = parking_lot::Mutex::new(String::new());
+
+pub fn progress(op: &str) {
+    *CUR_OP.lock() = op.to_string();
+    PROGRESS.fetch_add(1, std::sync::atomic::Ordering::SeqCst);
+}
+
+fn spawn_watchdog(secs: u64) {
+    std::thread::spawn(move || {
+        let mut last = PROGRESS.load(std::sync::atomic::Ordering::SeqCst);
+        let mut idle = 0u64;
+        loop {
+            std::thread::sleep(std::time::Duration::from_millis(500));
+            let now = PROGRESS.load(std::sync::atomic::Ordering::SeqCst);
+            if now != last {
+                last = now;
+                idle = 0;
+                continue;
+            }
+            idle += 1;
+            if idle >= secs * 2 && !CUR_OP.lock().is_empty() {
+                let t = CUR_TRACE.lock().clone();
+                let op = CUR_OP.lock().clone();
+                print!("{t}");
+                println!("{op} ret=deadlock");
+                std::process::exit(3);
+            }
+        }
+    });
+}
+
 pub fn arg_u64(a: &Args, k: &str, d: u64) -> u64 {
     a.get(k).and_then(|v| v.parse().ok()).unwrap_or(d)
 }
@@ -29,6 +65,7 @@ fn main() {
             args.insert(k.to_string(), v.to_string());
         }
     }
+    spawn_watchdog(arg_u64(&args, "watchdog", 20));
     let code = match domain.as_str() {
         "mem" => mem::main(&args),
         "memc" => memc::main(&args),
